@@ -136,7 +136,8 @@ def run_case(spec):
             plan.append((p0, "any"))
             who.send(p0)
     last_fault_t = world.reactor.seconds()
-    end = sch.drain(300.0, 12000, until=drv.all_delivered)
+    # (long sessions replay a mailbox of 150+ messages on every reconnect: they need many more steps per virtual second)
+    end = sch.drain(300.0, 12000 if not spec.get("late_drops") else 250000, until=drv.all_delivered)
     t_done = world.reactor.seconds() - last_fault_t
     complete = drv.all_delivered()
     viol = []
@@ -163,6 +164,10 @@ def run_case(spec):
                          "msg": "%s: wormhole closed by itself after reconnects: %s" % (app.name, errs[:3]),
                          "witness": wit()})
     # nothing lost (bounded progress)
+    if not complete and not viol and end == "steps":
+        # the step cap, not the 300 virtual seconds, ended the drain: no verdict on this case
+        world.finish()
+        return {"inconclusive": "step cap reached %.1f virtual s into the final drain" % t_done, "violations": []}
     if not complete and not viol:
         missing = []
         for app in (drv.a, drv.b):
